@@ -40,16 +40,14 @@ def extract_writer(p: Program, rep: Report, rule: str) -> CookieWriter:
     rets = [pa for pa in paths if pa.exit == "return"]
     fast = [pa for pa in rets if pa.value == ("param", "value")]
     slow = [pa for pa in rets if pa.value != ("param", "value")]
-    if len(fast) != 1 or len(slow) != 1:
-        raise Undecided(f"{rule}: Cookie._quote no longer has exactly one unquoted and one quoted return path")
-    # fast path guard: <legal predicate>(value) truthy
-    pos = [f for f, t in fast[0].facts if t]
-    if len(pos) != 1 or pos[0][0] != "call" or pos[0][2] != (("param", "value"),) or pos[0][1][0] not in ("global", "func"):
-        raise Undecided(f"{rule}: unrecognised guard of the unquoted path: {fast[0].fact_text()}")
-    # ---- resolve the predicate to (pattern, method): module constant `re.compile(P).<m>` or a helper function
-    pattern = method = None
+    if not fast or len({pa.value for pa in slow}) != 1:
+        raise Undecided(f"{rule}: Cookie._quote no longer has an unquoted return path and exactly one quoted return form")
+    VALUE = ("param", "value")
+    # str predicates that hold iff the string is non-empty and every character satisfies them
+    CHARWISE = ("isalnum", "isalpha", "isdigit", "isdecimal", "isnumeric")
     pred_loc = where(quote)
-    pred_name = pos[0][1][1].split(":")[-1]
+    pred_name = "?"
+    regex_preds = {}
 
     def compiled_pattern(e: ast.expr):
         """re.compile(<const>) or a module constant holding one -> folded pattern"""
@@ -62,63 +60,119 @@ def extract_writer(p: Program, rep: Report, rule: str) -> CookieWriter:
                 raise Undecided(f"{rule}: legal-character pattern is not a foldable constant ({ex})")
         return None
 
-    if pos[0][1][0] == "global" and pred_name in mod.constants:
-        pe = mod.constants[pred_name]
-        pred_loc = f"{mod.relpath}:{pe.lineno}"
-        if isinstance(pe, ast.Attribute) and pe.attr in ("fullmatch", "match", "search"):
-            pattern, method = compiled_pattern(pe.value), pe.attr
-    elif pos[0][1][0] == "func":
-        hf = p.func(pos[0][1][1])
-        pred_loc = hf.loc
-        rep.analysed(hf.fq)
-        for n in ast.walk(hf.node):
-            if isinstance(n, ast.Call) and isinstance(n.func, ast.Attribute) and n.func.attr in ("fullmatch", "match", "search") and n.args and isinstance(n.args[0], ast.Name) and n.args[0].id == hf.params[0]:
-                pattern, method = compiled_pattern(n.func.value), n.func.attr
-            if isinstance(n, ast.Call) and isinstance(n.func, ast.Attribute) and p.resolve_dotted(mod, n.func) in (("ext", "re.fullmatch"), ("ext", "re.match"), ("ext", "re.search")) and len(n.args) >= 2:
-                try:
-                    pattern, method = F.fold(mod, n.args[0]), n.func.attr
-                except NotConst:
-                    pass
-    if pattern is None or method is None:
-        raise Undecided(f"{rule}: the guard of the unquoted path ({show(pos[0])[:60]}) is not a compiled-regex fullmatch/match/search of a constant pattern")
-    if not isinstance(pattern, str):
-        raise Undecided(f"{rule}: legal-character pattern is not a str")
-    # ---- the language of strings that take the unquoted path, anchors and method semantics included
-    core = pattern
-    if core.startswith("^"):
-        core = core[1:]
-    elif core.startswith("\\A"):
-        core = core[2:]
-    dollar = zed = False
-    if core.endswith("$") and not core.endswith("\\$"):
-        core, dollar = core[:-1], True
-    elif core.endswith("\\Z"):
-        core, zed = core[:-2], True
-    ANY = "[\\x00-\\U0010ffff]*"
-    if method == "fullmatch":
-        eff = f"(?:{core})"
-    elif method == "match":
-        eff = f"(?:{core})" + ("\\n?" if dollar else ("" if zed else ANY))
-    else:
-        eff = ANY + f"(?:{core})" + ("\\n?" if dollar else ("" if zed else ANY))
-    try:
-        r = rx.Regex(eff)
-        al = rx.alphabet_for([r])
-        d = rx.compile_dfa(r, al)
-        legal_chars = [c for c in al if d.accepts([c])]
-        if not legal_chars:
-            raise Undecided(f"{rule}: the unquoted-path predicate accepts no single character")
-        ref = rx.Regex("[" + "".join("\\x%02x" % c if c < 256 else "\\u%04x" % c for c in legal_chars) + "]+")
-        d2 = rx.compile_dfa(ref, al)
-        w1 = rx.difference_witness(d, d2)
-        if w1 is not None or d.accepts_empty():
-            wit = rx.show(w1) if w1 is not None else "''"
-            rep.violation(rule, construct(f"{DS}:{pred_name}", text=f"{method}({pattern[:40]!r})"), pred_loc,
-                          f"the unquoted cookie path is taken for {wit}: the predicate `{method}` of {pattern[:50]!r} accepts more than non-empty strings over its own character set "
-                          "(a value such as a legal token followed by a line feed is emitted raw)", witness=wit)
-            raise Undecided(f"{rule}: table check not continued with a leaky unquoted-path predicate")
-    except rx.Unsupported as e:
-        raise Undecided(f"{rule}: {e}")
+    def regex_predicate(f):
+        """(pattern, method, name, loc) of a `<compiled>.fullmatch|match|search`(value) guard, through a module constant or a helper"""
+        nonlocal pred_loc, pred_name
+        pattern = method = None
+        name = f[1][1].split(":")[-1]
+        loc = where(quote)
+        if f[1][0] == "global" and name in mod.constants:
+            pe = mod.constants[name]
+            loc = f"{mod.relpath}:{pe.lineno}"
+            if isinstance(pe, ast.Attribute) and pe.attr in ("fullmatch", "match", "search"):
+                pattern, method = compiled_pattern(pe.value), pe.attr
+        elif f[1][0] == "func":
+            hf = p.func(f[1][1])
+            loc = hf.loc
+            rep.analysed(hf.fq)
+            for n in ast.walk(hf.node):
+                if isinstance(n, ast.Call) and isinstance(n.func, ast.Attribute) and n.func.attr in ("fullmatch", "match", "search") and n.args and isinstance(n.args[0], ast.Name) and n.args[0].id == hf.params[0]:
+                    pattern, method = compiled_pattern(n.func.value), n.func.attr
+                if isinstance(n, ast.Call) and isinstance(n.func, ast.Attribute) and p.resolve_dotted(mod, n.func) in (("ext", "re.fullmatch"), ("ext", "re.match"), ("ext", "re.search")) and len(n.args) >= 2:
+                    try:
+                        pattern, method = F.fold(mod, n.args[0]), n.func.attr
+                    except NotConst:
+                        pass
+        if pattern is None or method is None:
+            raise Undecided(f"{rule}: the guard of the unquoted path ({show(f)[:60]}) is not a compiled-regex fullmatch/match/search of a constant pattern")
+        if not isinstance(pattern, str):
+            raise Undecided(f"{rule}: legal-character pattern is not a str")
+        pred_loc, pred_name = loc, name
+        return pattern, method, name, loc
+
+    def regex_chars(f):
+        """the set of characters c with predicate(chr(c)) true; reports a predicate whose language is not <its chars>+"""
+        key = f
+        if key in regex_preds:
+            return regex_preds[key]
+        pattern, method, name, loc = regex_predicate(f)
+        # ---- the language of strings that take the unquoted path, anchors and method semantics included
+        core = pattern
+        if core.startswith("^"):
+            core = core[1:]
+        elif core.startswith("\\A"):
+            core = core[2:]
+        dollar = zed = False
+        if core.endswith("$") and not core.endswith("\\$"):
+            core, dollar = core[:-1], True
+        elif core.endswith("\\Z"):
+            core, zed = core[:-2], True
+        ANY = "[\\x00-\\U0010ffff]*"
+        if method == "fullmatch":
+            eff = f"(?:{core})"
+        elif method == "match":
+            eff = f"(?:{core})" + ("\\n?" if dollar else ("" if zed else ANY))
+        else:
+            eff = ANY + f"(?:{core})" + ("\\n?" if dollar else ("" if zed else ANY))
+        try:
+            r = rx.Regex(eff)
+            al = rx.alphabet_for([r])
+            d = rx.compile_dfa(r, al)
+            chars = [c for c in al if d.accepts([c])]
+            if not chars:
+                raise Undecided(f"{rule}: the unquoted-path predicate accepts no single character")
+            ref = rx.Regex("[" + "".join("\\x%02x" % c if c < 256 else "\\u%04x" % c for c in chars) + "]+")
+            d2 = rx.compile_dfa(ref, al)
+            w1 = rx.difference_witness(d, d2)
+            if w1 is not None or d.accepts_empty():
+                wit = rx.show(w1) if w1 is not None else "''"
+                rep.violation(rule, construct(f"{DS}:{name}", text=f"{method}({pattern[:40]!r})"), loc,
+                              f"the unquoted cookie path is taken for {wit}: the predicate `{method}` of {pattern[:50]!r} accepts more than non-empty strings over its own character set "
+                              "(a value such as a legal token followed by a line feed is emitted raw)", witness=wit)
+                raise Undecided(f"{rule}: table check not continued with a leaky unquoted-path predicate")
+        except rx.Unsupported as e:
+            raise Undecided(f"{rule}: {e}")
+        regex_preds[key] = set(chars)
+        return regex_preds[key]
+
+    def fact_chars(f, t):
+        """characters c for which the guard fact (f is t) holds of the one-character string chr(c); None = no constraint on characters"""
+        universe = set(range(256))
+        if f[0] == "not":
+            return fact_chars(f[1], not t)
+        if f[0] == "call" and f[2] == (VALUE,) and f[1][0] in ("global", "func"):
+            cs = regex_chars(f) & universe
+            return cs if t else universe - cs
+        if f[0] == "call" and f[1][0] == "attr" and f[1][1] == VALUE and not f[2] and f[1][2] in CHARWISE:
+            cs = {c for c in universe if getattr(chr(c), f[1][2])()}
+            return cs if t else universe - cs
+        if f[0] == "call" and f[1] == ("attr", VALUE, "isascii") and not f[2]:
+            cs = {c for c in universe if c < 128}
+            return cs if t else universe - cs
+        if f == VALUE:
+            return universe if t else set()
+        raise Undecided(f"{rule}: unrecognised guard of the unquoted path: {show(f)[:70]}")
+
+    legal_set = set()
+    n_positive = 0
+    for pa in fast:
+        cs = set(range(256))
+        pos = 0
+        for f, t in pa.facts:
+            fc = fact_chars(f, t)
+            cs &= fc
+            if t and f != VALUE:
+                pos += 1
+        if pos == 0:
+            raise Undecided(f"{rule}: an unquoted return path of Cookie._quote has no positive character predicate: {pa.fact_text()}")
+        n_positive += pos
+        legal_set |= cs
+    if pred_name == "?":
+        # no regex predicate at all: still name something for the report
+        pred_name = next(iter(mod.constants))
+    legal_chars = sorted(legal_set)
+    if not legal_chars:
+        raise Undecided(f"{rule}: the unquoted-path predicates accept no single character")
     legal = "".join(chr(c) for c in legal_chars)
     # slow path: '"' + value.translate(<table>) + '"'
     v = slow[0].value
